@@ -47,7 +47,7 @@ class C01(Prop):
         "selexConfigs_valid", "selex_total", "selex_no_fault", "selex_eformat_has_message", "selex_ok_wellformed", "selex_read_all_total",
         "stoConfigs_valid", "stockholm_total", "stockholm_total_rest", "stockholm_no_fault", "stockholm_eformat_has_message", "stockholm_ok_wellformed",
         "sto_growth_keeps_lens", "sto_growth_keeps_ogr_slot", "sto_expandseq_ogr",
-        "stockholmV_erase", "stockholmV_total", "stockholmV_total_rest", "stockholmV_ok_wellformed", "opened_readV_good",
+        "open_by_name_total", "stockholmV_erase", "stockholmV_total", "stockholmV_total_rest", "stockholmV_ok_wellformed", "opened_readV_good",
         "cfgOf_valid", "opened_cfg_valid", "opened_read_good", "guess_no_fault", "open_total", "open_total_fmtd", "auto_total", "open_status_documented")] + [
         "EaselModel.Msafile.openModelW_zero", "EaselModel.Msafile.openModelW_auto", "EaselModel.Msafile.openModelW_no_fault",
         "EaselModel.Msafile.guessFormat_no_fault", "EaselModel.Msafile.guessAlphabet_no_fault", "EaselModel.Msafile.checkSeqUnknown_no_fault",
@@ -59,7 +59,7 @@ class C01(Prop):
         "EaselModel.Msafile.expandAll_inv", "EaselModel.Msafile.pdExpandSeq_sqlen", "EaselModel.Msafile.pdExpandSeq_perLen", "EaselModel.Msafile.pdExpandSeq_ogrLen",
         "EaselModel.Msafile.pdExpandSeq_rest", "EaselModel.Msafile.msaExpand_rows", "EaselModel.Msafile.msaExpand_gr",
         "EaselModel.Msafile.stockholmReadV_erase", "EaselModel.Msafile.patchMsa_wellFormed", "EaselModel.Msafile.stockholmReadV_good",
-        "EaselModel.Msafile.stockholmReadV_ok", "EaselModel.Msafile.stockholmReadV_rest", "EaselModel.Msafile.Opened.readV_good"]
+        "EaselModel.Msafile.openByName_enotfound_msg", "EaselModel.Msafile.openByName_enotfound_iff", "EaselModel.Msafile.stockholmReadV_ok", "EaselModel.Msafile.stockholmReadV_rest", "EaselModel.Msafile.Opened.readV_good"]
     claimed = True
     technique = ("Lean 4 proof (totality, fault-freedom and well-formedness of an executable line-by-line model of the alignment readers, bounds-checked "
                  "auxiliary arrays) + exact differential correspondence of the model with the ASan/UBSan/LSan-built readers + property monitors on all ten formats")
@@ -79,6 +79,8 @@ class C01(Prop):
                   "input. The numeric payload of Stockholm #=GS WT weights and #=GF GA/NC/TC cut-offs is in the model (Msafile/StoNum.lean: strtod on the longest valid "
                   "prefix of the token, decimal and hexadecimal syntax correctly rounded in exact integer arithmetic, (float) second rounding for cut-offs, infinities exact, NaN "
                   "canonical) through stockholmReadV, proved equal to stockholmRead up to wgt/cutoff (stockholmV_erase) so that totality / no fault / well-formedness transfer. "
+                  "esl_msafile_Open by name (Msafile/OpenByName.lean, open_by_name_total): eslENOTFOUND + message + afp in an error state exactly when the name is no regular file "
+                  "(missing in the working directory and the $env list, or a directory), else the open-buffer outcome; op `openerr` drives it on the real code. "
                   "The growth step of the Stockholm reader (esl_msa_Expand + stockholm_parsedata_ExpandSeq at the 17th/33rd/65th name) is stated slot by slot (sto_growth_keeps_lens: "
                   "old slots of sqlen/sslen/salen/pplen/every ogr_len[tag] keep their value, new slots 0). "
                   "The hand models are tied to the working tree by an exact differential run (status sequence + full MSA dump compared bit for bit incl. weights and cut-offs; "
@@ -108,6 +110,9 @@ class C01(Prop):
                     "by running every input through memory, file, slurped-file, mmap and small-page stream sources and demanding identical results",
                     "Lean compiler/runtime for the executable driver; gcc; sanitizer runtimes"]
     assumptions = ["allocation never fails (eslEMEM paths not modelled)",
+                   "glibc strtod in the C locale converts the longest valid prefix, correctly rounded to nearest-even (the model IS correct rounding in integer arithmetic); "
+                   "confirmed bit for bit by the differential run on every generated token, not proved about glibc; NaN payloads canonicalised",
+                   "esl_msafile_Open by name: what the file system answers is a parameter of the model (PathKind); the .gz pipe and stdin '-' are not modelled",
                    "C locale ctype (isspace/isgraph/isalpha on bytes 0..127; bytes >= 0x80 are not space/graph/alpha)",
                    "leaks are outside the model: LeakSanitizer per operation in the harness is support, not proof",
                    "alignment sizes fit C int / int64_t (inputs explored up to 64 KiB); residue counts of the alphabet guessers fit int (x = ct[...] is an int) and n < 2^50 (0.02*n exact enough)"]
@@ -311,6 +316,19 @@ class C01(Prop):
             stats["kinds"]["numtok"] = stats["kinds"].get("numtok", 0) + 1
             stats["bytes_total"] += len(data); stats["max_len"] = max(stats["max_len"], len(data))
             out.append({"name": "numtok%d" % len(out), "ops": ops})
+        # 3j. esl_msafile_Open() by name: a name that is no file, a directory, a name found (or not) through the <env> directory list
+        for what in ("missing", "dir", "envmissing"):
+            for f, abc in (("auto", "text"), ("stockholm", "guess"), ("afa", "amino"), (rng.choice(ALL_FORMATS), rng.choice(["text", "dna", "guess"]))):
+                out.append({"name": "openerr-%s-%s-%s" % (what, f, abc), "ops": ["openerr what=%s fmt=%s abc=%s" % (what, f, abc)]})
+        for i in range(40 if quick else 600):
+            d, b = rng.choice(pool)
+            own = [f for f in ALL_FORMATS if G.FMT_DIR[f] == d]
+            data = b if rng.random() < 0.6 else G.mutate(rng, b, allfiles)
+            f = rng.choice(own + ["auto", "auto"]); abc = rng.choice(["text", "guess", "amino", "dna"])
+            sfx = rng.choice(["sto", "afa", "a2m", "slx", "pb", "phy", "phys", "txt", "dat"])
+            ops = ["openerr what=envfile fmt=%s abc=%s sfx=%s hex=%s" % (f, abc, sfx, G.hx(data)), self._op(data, f, abc, "allfile", 0, sfx)]
+            stats["kinds"]["openerr"] = stats["kinds"].get("openerr", 0) + 1
+            out.append({"name": "openenv%d" % len(out), "ops": ops, "sfx": sfx})
         # 4. raw bytes
         for _ in range(n_raw):
             emit("raw", G.raw_bytes(rng), rng.choice(ALL_FORMATS + [None]))
@@ -381,6 +399,14 @@ class C01(Prop):
             toks = l.split()
             if not toks or not toks[0].startswith("open="):
                 return Failure("monitor", "unparsable harness answer for %s: %s" % (what, l[:200]))
+            if op.startswith("openerr"):
+                what = "esl_msafile_Open by name, what=%s fmt=%s abc=%s" % (kv.get("what"), kv.get("fmt"), kv.get("abc"))
+                if kv.get("what") != "envfile":
+                    # documented: eslENOTFOUND, afp returned in an error state carrying the message, afp->abc NULL
+                    if l.replace(" leak", "") != "open=enotfound:msg":
+                        return Failure("monitor", "a name that is no regular file must give eslENOTFOUND with afp in an error state and a message, got '%s' (%s)" % (l[:120], what))
+                    if " leak" in l: return Failure("monitor", "memory leaked on the eslENOTFOUND path (%s)" % what, key=LEAK_KEY)
+                    continue
             o = toks[0][5:].split(":")
             if o[0] not in OK_OPEN: return Failure("monitor", "open returned undocumented status %s (%s)" % (o[0], what))
             if o[0] == "enoformat" and kv.get("fmt") != "auto": return Failure("monitor", "open returned enoformat for a declared format (%s)" % what)
@@ -411,6 +437,7 @@ class C01(Prop):
             # the outcome must not depend on where the bytes come from (C05 tie); suffix-driven autodetection excepted
             sig = (kv.get("fmt"), kv.get("abc"), kv.get("nw"), kv.get("hex"))
             canon = re.sub(r"^open=(\w+):\w+", r"open=\1", l.replace(" leak", ""))   # OpenMem returns no afp on enoformat (message unobservable)
+            if op.startswith("openerr"): continue
             if kv.get("sfx") is None or kv.get("src") == "mem":
                 if sig in ref and ref[sig][0] != canon and not case.get("sfx"):
                     return Failure("monitor", "result depends on the input source: %s vs %s" % (ref[sig][1], what), detail={"a": ref[sig][0][:500], "b": canon[:500]})
